@@ -174,12 +174,15 @@ Record evok (c : scfg) (s : sys) : Prop := {
   ev_next : (1 ≤ L1.seq_of (l1 s) (bid c))%N;
 }.
 
+Definition is_deposit (m : smsg) : bool := match m with SDeposit _ _ _ _ _ _ => true | _ => false end.
+
 Lemma step_l1_events c s m :
   let s' := (sys_step c s m).1 in
   (bevents c (l1 s') = bevents c (l1 s) ∧ L1.seq_of (l1 s') (bid c) = L1.seq_of (l1 s) (bid c)) ∨
   (∃ ev, bevents c (l1 s') = ev :: bevents c (l1 s) ∧
          L1.seq_of (l1 s') (bid c) = (L1.seq_of (l1 s) (bid c) + 1)%N ∧ L1.e_seq ev = L1.seq_of (l1 s) (bid c) ∧
-         is_Some (L1.resolve (c1 c) (L1.e_from ev)) ∧ valid_denom (L1.e_l1denom ev) = true).
+         is_Some (L1.resolve (c1 c) (L1.e_from ev)) ∧ valid_denom (L1.e_l1denom ev) = true ∧
+         is_deposit m = true).
 Proof.
   cbn zeta.
   assert (Hfr : ∀ s1, L1.elog s1 = L1.elog (l1 s) → L1.next_seq s1 = L1.next_seq (l1 s) →
@@ -214,7 +217,7 @@ Qed.
 
 Lemma step_evok c s m : evok c s → evok c (sys_step c s m).1.
 Proof.
-  intros [E1 E2 E3]. destruct (step_l1_events c s m) as [[Hb Hs]|(ev & Hb & Hs & Hseq & Hfrom & Hd)]; split.
+  intros [E1 E2 E3]. destruct (step_l1_events c s m) as [[Hb Hs]|(ev & Hb & Hs & Hseq & Hfrom & Hd & _)]; split.
   - rewrite Hb. exact E1.
   - rewrite Hb, Hs. exact E2.
   - rewrite Hs. exact E3.
@@ -343,3 +346,133 @@ Proof.
   - intros ev Hev. destruct (i_ev_lt _ _ I ev Hev) as [Hlt _].
     rewrite bool_decide_eq_false_2; [done|]. intros [? _]. lia.
 Qed.
+
+Lemma run_nodep_seq_of c h : ∀ s, Forall (λ m, is_deposit m = false) h →
+  L1.seq_of (l1 (sys_run c s h)) (bid c) = L1.seq_of (l1 s) (bid c).
+Proof.
+  induction h as [|m h IH]; intros s Hf; cbn; [done|]. apply Forall_cons in Hf as [Hm Hf]. rewrite IH by done.
+  destruct (step_l1_events c s m) as [[_ Hq]|(ev & _ & _ & _ & _ & _ & Hd)]; [exact Hq|congruence].
+Qed.
+
+(* ------------------------------------------------------------------------------------ *)
+(* the honest proposal, and the whole drain                                                *)
+(* ------------------------------------------------------------------------------------ *)
+Lemma div_second_mono a b : (a ≤ b)%Z → (a / L1.second ≤ b / L1.second)%Z.
+Proof. intros. apply Z.div_le_mono; [reflexivity|done]. Qed.
+
+Lemma propose_ok c s e1 proposer idx l2b lo hi v bh x e2 :
+  (∀ y, length (L1.hash (c1 c) y) = 32%nat) →
+  (1 ≤ bid c)%N → L1.configs (l1 s) !! bid c = Some x → proposer = L1.c_proposer x →
+  is_Some (L1.resolve (c1 c) proposer) → idx = L1.out_of (l1 s) (bid c) →
+  (if (idx =? 1)%N then true
+   else match L1.outputs (l1 s) !! (bid c, (idx - 1)%N) with Some o => (L1.o_l2 o <? l2b)%N | None => false end) = true →
+  (L1.now e1 + L1.c_period x ≤ L1.now e2)%Z →
+  let r := sys_step c s (SPropose e1 proposer idx l2b lo hi v bh) in
+  r.2 = true ∧ l2 r.1 = l2 s ∧ paid r.1 = paid s ∧ committed_final c r.1 e2 idx lo hi v bh.
+Proof.
+  intros Hlen Hb Hcfg Hp Hres Hidx Hprev Htime. cbn zeta. cbn [sys_step]. unfold lift1, L1.step. cbn [L1.handle].
+  unfold L1.propose, L1.valid_addr. rewrite (bool_decide_eq_true_2 _ Hres). cbn [negb].
+  replace (bid c =? 0)%N with false by (symmetry; apply N.eqb_neq; lia).
+  assert (Hl : (length (honest_root c (l2 s) lo hi v bh) =? 32)%nat = true).
+  { apply Nat.eqb_eq. unfold honest_root, output_root. apply Hlen. }
+  rewrite Hl. cbn [negb]. rewrite Hcfg. cbn [mbind option_bind].
+  rewrite bool_decide_eq_true_2 by done. cbn [negb].
+  rewrite <- Hidx. rewrite N.eqb_refl. cbn [negb]. rewrite Hprev. cbn [negb fst snd set_l1 l1 l2 paid].
+  split; [done|]. split; [done|]. split; [done|].
+  exists x, {| L1.o_root := honest_root c (l2 s) lo hi v bh; L1.o_l1h := L1.height e1; L1.o_time := L1.now e1; L1.o_l2 := l2b |}.
+  cbn. split; [done|]. split; [by rewrite lookup_insert|]. split; [done|].
+  unfold L1.is_final. cbn. apply Z.leb_le. by apply div_second_mono.
+Qed.
+
+(* C08_drain: see Properties/C08.v *)
+Lemma c08_drain c s0 h ex height hk e1 proposer idx l2b v bh e2 sender ms x :
+  genesis c s0 → L2.resolve (c2 c) [] = None → L1.resolve (c1 c) [] = None → Genesis1.hash_wf (c1 c) →
+  (1 ≤ bid c < two64N)%N → height ≠ 0%N → length bh = 32%nat → (1 ≤ idx)%N →
+  let s := sys_run c s0 h in
+  L2.is_executor (c2 c) (l2 s) ex = true →
+  L1.configs (l1 s) !! bid c = Some x → proposer = L1.c_proposer x → is_Some (L1.resolve (c1 c) proposer) →
+  idx = L1.out_of (l1 s) (bid c) →
+  (if (idx =? 1)%N then true
+   else match L1.outputs (l1 s) !! (bid c, (idx - 1)%N) with Some o => (L1.o_l2 o <? l2b)%N | None => false end) = true →
+  (L1.now e1 + L1.c_period x ≤ L1.now e2)%Z → is_Some (L1.resolve (c1 c) sender) →
+  let s1 := sys_run c s (relay_steps ex height hk (pending_seqs c s)) in
+  (L2.next_l2 (l2 s1) ≤ two64N)%N →
+  NoDup ms → (∀ m, m ∈ ms ↔ claimable c s1 m) →
+  let sched := drain c s ex height hk e1 proposer idx l2b v bh e2 sender ms in
+  let s' := sys_run c s sched in
+  (Forall (λ b, b = true) (sys_oks c s sched) ∧
+   (∀ m e' sender' idx' lo' hi' v' bh', m ∈ ms →
+      (sys_step c s' (SClaim e' sender' idx' m lo' hi' v' bh')).2 = false) ∧
+   (∀ d, pending_dep c s' d = 0%Z) ∧
+   (∀ w, w ∈ L2.wlog (l2 s') → L2.w_seq w ∉ paid s' →
+         ¬ ((0 < L2.w_amt w)%Z ∧ is_Some (L1.resolve (c1 c) (L2.w_to w)))) ∧
+   (∀ d, solvent c s' d ∨ denom_collision c)) ∨
+  denom_collision c ∨ Collision (L1.hash (c1 c)).
+Proof.
+  intros G Hnil2 Hnil1 Hwf Hb Hheight Hbh Hidx1 s Hex Hcfg Hprop Hpres Hidx Hprev Htime Hsender s1 Hn2 Hnd Hms sched s'.
+  assert (Hlen : ∀ y, length (L1.hash (c1 c) y) = 32%nat) by (intros y; apply Hwf).
+  set (relays := relay_steps ex height hk (pending_seqs c s)) in *.
+  (* phase 1: relays *)
+  destruct (relay_phase c s0 G Hnil2 Hnil1 Hwf ex height hk Hheight _ h eq_refl Hex) as (Hoks1 & Hl1 & Hnext & Hprm).
+  fold s in Hoks1, Hl1, Hnext, Hprm. change (seq_from _ _) with (pending_seqs c s) in Hoks1, Hl1, Hnext, Hprm.
+  fold relays in Hoks1, Hl1, Hnext, Hprm. fold s1 in Hl1, Hnext, Hprm.
+  (* phase 2: proposal *)
+  set (hi := (L2.next_l2 (l2 s1) - 1)%N) in *.
+  set (pst := SPropose e1 proposer idx l2b 0 hi v bh).
+  destruct (propose_ok c s1 e1 proposer idx l2b 0 hi v bh x e2 Hlen ltac:(lia)
+              ltac:(by rewrite Hl1) Hprop Hpres ltac:(by rewrite Hl1) ltac:(by rewrite Hl1) Htime) as (Hok2 & Hl2 & Hpaid2 & Hcf).
+  fold pst in Hok2, Hl2, Hpaid2, Hcf. set (s2 := (sys_step c s1 pst).1) in *.
+  assert (Hs2 : s2 = sys_run c s0 (h ++ relays ++ [pst])).
+  { rewrite !sys_run_app. reflexivity. }
+  (* phase 3: claims *)
+  pose proof (run_ok c (h ++ relays) s0 Hnil2 (fresh_nonneg c s0 (proj1 G)) (fresh_l2ok c s0 (proj1 G))) as [_ Hok1].
+  rewrite sys_run_app in Hok1. fold s s1 in Hok1.
+  assert (Hcl : ∀ m, claimable c s2 m ↔ claimable c s1 m).
+  { intros m. unfold claimable. rewrite Hl2, Hpaid2. done. }
+  destruct (c08_drain_claims c s0 e2 sender idx 0 hi v bh (h ++ relays ++ [pst]) ms G Hnil2 Hlen Hb Hsender Hidx1 Hbh Hnd)
+    as [(Hoks3 & Hrej & Hl23 & Hsolv & Hexcl)|Hcol]; rewrite <- ?Hs2; auto.
+  - by rewrite Hl2.
+  - intros m Hm. apply Hms in Hm. split; [by apply Hcl|].
+    destruct Hm as (w & Hf & _). apply find_elem in Hf as [Hin Hm]. apply N.eqb_eq in Hm.
+    destruct Hok1 as (_ & _ & Hall). rewrite List.Forall_forall in Hall.
+    destruct (Hall w ltac:(by apply elem_of_list_In)) as [_ _ _ _ _ _ _ Hseq]. subst hi. lia.
+  - left. rewrite <- Hs2 in Hoks3, Hrej, Hl23, Hsolv, Hexcl. set (cst := claim_steps e2 sender idx 0 hi v bh ms) in *.
+    assert (Hsched : sched = relays ++ [pst] ++ cst) by reflexivity.
+    assert (Hs' : s' = sys_run c s2 cst).
+    { unfold s'. rewrite Hsched, sys_run_app. fold s1. cbn [app sys_run]. reflexivity. }
+    rewrite <- Hs' in Hrej, Hl23, Hsolv, Hexcl.
+    split; [|split; [exact Hrej|split; [|split; [|exact Hsolv]]]].
+    + rewrite Hsched. clear -Hoks1 Hok2 Hoks3. fold s1 in Hoks1.
+      assert (Happ : ∀ st l1' l2', sys_oks c st (l1' ++ l2') = sys_oks c st l1' ++ sys_oks c (sys_run c st l1') l2').
+      { intros st l1'. revert st. induction l1' as [|a l IH]; intros st l2'; cbn; [done|]. by rewrite IH. }
+      rewrite Happ. apply Forall_app. split; [exact Hoks1|]. fold s1. cbn [app sys_oks]. constructor; [exact Hok2|exact Hoks3].
+    + intros d. apply pending_dep_zero.
+      * rewrite Hs', Hs2, <- sys_run_app. apply run_inv, fresh_inv, G.
+      * rewrite Hl23, Hl2, Hnext, <- Hl1. symmetry.
+        assert (Hnd' : Forall (λ m, is_deposit m = false) (pst :: cst)).
+        { constructor; [done|]. unfold cst, claim_steps. apply Forall_fmap, Forall_forall. done. }
+        replace s' with (sys_run c s1 (pst :: cst)) by (by rewrite Hs'). by apply run_nodep_seq_of.
+    + intros w Hw Hnp. apply Hexcl; auto. intros m Hm. apply Hms. by apply Hcl.
+Qed.
+
+
+(* non-vacuity: the drain schedule executed on the concrete system of C08Run *)
+Module C08DrainRun.
+  Import C08Run. Import Coq.Strings.String. Local Open Scope string_scope.
+  Definition pre : list smsg :=
+    [ SDeposit (e 1000000000) (bs "l1user") (bs "alice") (bs "uinit") 100 [];
+      SDeposit (e 1000000000) (bs "l1user") (bs "nobody") (bs "uinit") 30 [];
+      SSend1 (e 1000000000) 1 1001 (bs "uinit") 5 ].
+  Definition s : sys := sys_run c s0 pre.
+  Definition sched : list smsg :=
+    drain c s (bs "exec") 7 (λ _, L2.HNone) (e 2000000000) (bs "prop") 1 10 0 bh (e 9000000000) (bs "prop") [1%N].
+  (* two relays (one credited, one refunded), the proposal, the claim of the refund: all accepted;
+     afterwards escrow 105 = supply 100 + unrelayed 0 + unpaid 0 + donations 5 *)
+  Example drain_runs :
+    sys_oks c s sched = [true; true; true; true] ∧
+    let s' := sys_run c s sched in
+    (getb (L1.bk (l1 s')) (escrow_of c) (bs "uinit"), gets (L2.bk (l2 s')) uinit2,
+     pending_dep c s' (bs "uinit"), pending_wd s' uinit2, donations s' (bs "uinit"), paid s')
+    = (105, 100, 0, 0, 5, [1%N])%Z.
+  Proof. vm_compute. split; reflexivity. Qed.
+End C08DrainRun.
